@@ -3,6 +3,9 @@ CONSTANTS
   Workers = {"w1", "w2"}
   Cap = 1
   ResultKinds = {"ok"}
+  OutOf <- OutSingle
+  SingleFile = TRUE
+  GenKinds = {"ok"}
   Items <- ItemsTie
 SPECIFICATION Spec
 INVARIANTS TypeOk Deterministic
